@@ -48,11 +48,12 @@ Proof.
     { unfold exec. rewrite Ha, H.
       match goal with |- context [run_prog false ?k t m 0 ?p ?s1] =>
         destruct (run_prog_LogExt false k t m 0 p s1) as (l & Hl & _); destruct (run_prog false k t m 0 p s1) as [s2 r] end.
-      cbn [fst say on_w x_log s0 app] in Hl.
+      cbn [fst say say_all spawn_items length seq combine map on_w x_log s0 app] in Hl.
       destruct r; cbn [fst].
       - destruct (poll_ready_LogExt (nmods sc) t m s2) as (l2 & Hl2 & _). rewrite Hl2, Hl. eexists; reflexivity.
       - rewrite Hl. eexists; reflexivity.
-      - cbn [on_w x_log]. rewrite Hl. eexists; reflexivity.
+      - match goal with |- context [fold_left ?f ?l0 ?s3] => destruct (fold_end_task_LogExt m l0 s3) as (l2 & Hl2 & _) end.
+        rewrite Hl2. cbn [on_w x_log]. rewrite Hl. eexists; reflexivity.
       - destruct (poll_ready_LogExt (nmods sc) t m s2) as (l2 & Hl2 & _). rewrite Hl2, Hl. eexists; reflexivity. }
     destruct (exec (nmods sc) t m (CbMsg x) [] (pick_msg (cfg sc m) x) s0) as [s1 p]. cbn [fst] in E0.
     destruct E0 as (l & El). cbn [x_w x_log].
@@ -63,8 +64,8 @@ Proof.
     unfold shutdown_part in Es.
     destruct (shut _) in Es; injection Es as _ <-; [|destruct Hin].
     apply in_app_or in Hin. destruct Hin as [Hin|[Hin|[]]]; [|discriminate].
-    unfold cancelled in Hin. apply in_flat_map in Hin. destruct Hin as (j & _ & Hj).
-    destruct (existsb _ _); [destruct Hj as [Hj|[]]; discriminate|destruct Hj].
+    unfold cancelled in Hin. apply in_app_or in Hin.
+    destruct Hin as [Hin|Hin]; apply in_map_iff in Hin; destruct Hin as (j & Hj & _); discriminate.
 Qed.
 
 (* ---- C13 globals_released: after start-up step and after every dispatched event -- panicking
